@@ -69,7 +69,7 @@ def build(stack, ffmode):
             outer.failfast = True
     elif stack == 8:
         inner = [TestResult(failfast=ff)]
-        outer = Tagger(inner[0], {"x"}, set())
+        outer = Tagger(inner[0], iter(["x"]), ())
     elif stack == 9:
         inner = [doubles.Python26TestResult()]
         outer = ExtendedToOriginalDecorator(inner[0])
